@@ -50,7 +50,8 @@ func rayIntersectsTri(tri intersectingTri, ray geometry.Ray, minDistance, maxDis
 		return false
 	}
 
-	if tVal > maxDistance {
+	// tVal is measured from ray.At(minDistance); maxDistance is measured from the ray's origin
+	if tVal+minDistance > maxDistance {
 		return false
 	}
 
